@@ -230,6 +230,25 @@ class Statement(object):
             max_size += self.code_pkg.size + 1
             min_size += self.code_pkg.size + 1
 
+        if self.operand.left.is_address_expression() and not force_16_bit:
+            # label +- constant: the displacement is the span to the label shifted by the constant
+            expression = self.operand.left
+            constant = expression.left.int if expression.left.is_numeric() else expression.right.int
+            if expression.operation not in ("+", "-"):
+                force_16_bit = True
+            else:
+                constant = constant if expression.operation == "+" else -constant
+                if positive_range:
+                    lowest, highest = min_size - 2 - self.code_pkg.size + constant, max_size + constant
+                else:
+                    lowest, highest = constant - max_size, constant - min_size
+                if -128 <= lowest and highest <= 127:
+                    min_size = max_size = 0
+                elif highest < -128 or lowest > 127:
+                    force_16_bit = True
+                else:
+                    min_size, max_size = 0, 0xFFFF
+
         if force_16_bit:
             min_size = max_size = 0xFFFF
 
